@@ -51,6 +51,18 @@ type Addr struct {
 	whole bool
 }
 
+type mkIfaceRec struct {
+	term string
+	typ  types.Type
+	val  string
+}
+
+type ifaceFieldUF struct {
+	iface types.Type
+	field string
+	uf    string
+}
+
 type retInfo struct {
 	reach string
 	vals  []string
@@ -77,6 +89,7 @@ type Frame struct {
 	contract *Contract
 	params []string
 	closureOf map[ssa.Value]*closureInfo
+	curState *State
 	escaped []*closureInfo
 	dep     bool
 	silent  bool
@@ -96,6 +109,8 @@ type loopInfo struct {
 	isMapRange bool
 	iter  string
 	cands []*invCand
+	vis, visKey, visKeySort, visOk string
+	point string // where an invariant is being evaluated: entry, head, back
 }
 
 type Enc struct {
@@ -137,12 +152,17 @@ type Enc struct {
 	escaped    []*closureInfo
 	pureCalls  bool
 	noSpecInline bool
+	verCtr     int
+	privateRefs map[string]bool
+	invDone    map[string]bool
+	mkIfaces   []mkIfaceRec
+	ifaceFieldUFs map[string]ifaceFieldUF
 }
 
 func newEnc(w *World, f *ssa.Function, spec *Specs) *Enc {
 	e := &Enc{w: w, top: f, d: newDecls(), heaps: map[string]heapSig{}, heapRef: map[string]bool{}, oldTerms: map[string]bool{},
 		allocTerms: map[string]bool{}, selMemo: map[interface{}]string{}, strConsts: map[string]string{}, globals: map[string]bool{},
-		nameCount: map[string]int{}, spec: spec, flagInfo: map[int]string{}, frameOn: true, ghost: map[string]string{}, usedTrusted: map[string]bool{}}
+		nameCount: map[string]int{}, spec: spec, flagInfo: map[int]string{}, frameOn: true, ghost: map[string]string{}, usedTrusted: map[string]bool{}, privateRefs: map[string]bool{}, invDone: map[string]bool{}}
 	e.a0 = "A0"
 	e.d.decl("A0", "() Int")
 	e.assume("(>= A0 1)")
@@ -923,6 +943,20 @@ func (e *Enc) heapsOfPtr(v ssa.Value) []string {
 }
 
 func (e *Enc) loopHead(fr *Frame, li *loopInfo, entry *State, conds []string, preds []*State) *State {
+	if li.isMapRange && li.vis == "" {
+		for _, in := range li.head.Instrs {
+			if nx, ok := in.(*ssa.Next); ok && !nx.IsString {
+				if rg, ok := nx.Iter.(*ssa.Range); ok {
+					if m, ok := rg.X.Type().Underlying().(*types.Map); ok {
+						e.n++
+						li.vis = fmt.Sprintf("%svis_%d", fr.pfx, e.n)
+						li.visKeySort = e.d.sortOf(m.Key())
+						e.d.decl(li.vis, "("+li.visKeySort+") Bool")
+					}
+				}
+			}
+		}
+	}
 	// invariants on entry edges
 	e.loopEntryObs(fr, li, conds, preds)
 	s := e.newState(sLoop, entry)
@@ -952,12 +986,16 @@ func (e *Enc) loopHead(fr *Frame, li *loopInfo, entry *State, conds []string, pr
 }
 
 func (e *Enc) instr(fr *Frame, st *State, in ssa.Instruction) *State {
+	fr.curState = st
 	switch x := in.(type) {
 	case *ssa.DebugRef:
 		return st
 	case *ssa.Alloc:
 		r := e.alloc(fr, &st, x, "al")
 		fr.vals[x] = r
+		if !addrEscapes(x) {
+			e.privateRefs[r] = true
+		}
 		el := x.Type().Underlying().(*types.Pointer).Elem()
 		a := e.addrOfRef(r, el)
 		// zero-initialise
@@ -998,12 +1036,14 @@ func (e *Enc) instr(fr *Frame, st *State, in ssa.Instruction) *State {
 		t := x.X.Type()
 		tag := e.d.tag(t)
 		v := e.val(fr, x.X)
+		var n string
 		if isPointerShaped(t) {
-			e.setVal(fr, x, fmt.Sprintf("(mk_Iface %d %s)", tag, v))
+			n = e.setVal(fr, x, fmt.Sprintf("(mk_Iface %d %s)", tag, v))
 		} else {
 			bx := e.box(t, v)
-			e.setVal(fr, x, fmt.Sprintf("(mk_Iface %d %s)", tag, bx))
+			n = e.setVal(fr, x, fmt.Sprintf("(mk_Iface %d %s)", tag, bx))
 		}
+		e.mkIfaces = append(e.mkIfaces, mkIfaceRec{n, t, v})
 		return st
 	case *ssa.FieldAddr:
 		t, s, ok := derefStruct(x.X.Type())
@@ -1227,6 +1267,7 @@ func (e *Enc) alloc(fr *Frame, st **State, v ssa.Value, kind string) string {
 	e.allocTerms[r] = true
 	ns := e.newState(sStore, *st) // a no-op store node carrying the new counter
 	ns.heap = ""
+	ns.ver = (*st).ver
 	nx := e.freshConst(fr.pfx+"nxt", "Int")
 	e.define(nx, "(+ "+(*st).nxt+" 1)")
 	ns.nxt = nx
@@ -1241,6 +1282,7 @@ func (e *Enc) allocAnon(st **State, kind string) string {
 	e.allocTerms[r] = true
 	ns := e.newState(sStore, *st)
 	ns.heap = ""
+	ns.ver = (*st).ver
 	nx := e.freshConst("nxt", "Int")
 	e.define(nx, "(+ "+(*st).nxt+" 1)")
 	ns.nxt = nx
@@ -1274,4 +1316,35 @@ func (e *Enc) unbox(t types.Type, iv string) string {
 	e.d.decl("unbox_"+k, "(Int) "+srt)
 	u := "(unbox_" + k + " " + iv + ")"
 	return u
+}
+
+// addrEscapes: the address of the allocation is used by anything but field/element addressing, loads
+// and stores through it.
+func addrEscapes(v ssa.Value) bool {
+	refs := v.Referrers()
+	if refs == nil {
+		return true
+	}
+	for _, r := range *refs {
+		switch x := r.(type) {
+		case *ssa.FieldAddr:
+			if addrEscapes(x) {
+				return true
+			}
+		case *ssa.IndexAddr:
+			if addrEscapes(x) {
+				return true
+			}
+		case *ssa.UnOp:
+			// load
+		case *ssa.Store:
+			if x.Val == v {
+				return true
+			}
+		case *ssa.DebugRef:
+		default:
+			return true
+		}
+	}
+	return false
 }
